@@ -20,6 +20,13 @@ type CodeSpec struct {
 func GenCode(r *rand.Rand, nb, maxIns, nregs int) CodeSpec {
 	var cs CodeSpec
 	cur := uint64(0x1000)
+	spread := r.Intn(5) == 0
+	si := 0
+	spreadBases := []uint64{1 << 31, 1<<32 - 8, 1<<63 - 6, 1<<63 + 0x1000, 0xffffffff80000000, 1<<64 - 0x4000}
+	if spread && r.Intn(2) == 0 {
+		cur = spreadBases[r.Intn(3)]
+		si = 3
+	}
 	type plan struct{ n int }
 	plans := make([]plan, nb)
 	for i := range plans {
@@ -44,6 +51,17 @@ func GenCode(r *rand.Rand, nb, maxIns, nregs int) CodeSpec {
 		slots = append(slots, bs)
 		if r.Intn(3) == 0 {
 			cur += uint64(1 + r.Intn(9)) // gap after the block
+		}
+		if spread && i+1 < len(plans) {
+			// the next block far away: the blocks of one code lie in both halves of the
+			// address space (one of them may straddle 2^63, none wraps around)
+			for si < len(spreadBases) && spreadBases[si] <= cur+64 {
+				si++
+			}
+			if si < len(spreadBases) {
+				cur = spreadBases[si] + uint64(r.Intn(16))
+				si++
+			}
 		}
 	}
 	var starts []uint64
